@@ -2,6 +2,7 @@ package sim
 
 import (
 	"fmt"
+	"strings"
 	"testing"
 	"testing/synctest"
 
@@ -566,6 +567,40 @@ func init() {
 			})
 		},
 		Rule: "the first client takes a full Backup and then incremental Backups, each with the version the previous one returned, while 1-3 other clients commit between AND during the backups (the backup's producer goroutines are scheduled actors); at the end the whole chain is Loaded into a fresh database, which must equal the source (value, user meta, expiry, version of every key) as of some single timestamp between the start and the end of the last backup. non-trivial = run whose chain was restored and verified",
+	})
+	// C23 encryption at rest
+	genEnc := func(t *rapid.T) *Case {
+		c := genReopen(t)
+		c.Cfg.InMemory = false
+		c.Cfg.EncKeyLen = rapid.SampledFrom([]int{16, 24, 32}).Draw(t, "enc_key_len23")
+		c.Cfg.BlockCache, c.Cfg.IndexCache = true, true
+		c.Cfg.EncRotS = rapid.SampledFrom([]int{0, 1, 30, 3600}).Draw(t, "enc_rot_s")
+		c.Cfg.EncRotateMaster = rapid.Bool().Draw(t, "enc_rotate_master")
+		c.Cfg.Compression = rapid.IntRange(0, 2).Draw(t, "compression23")
+		if c.Sched.ClockPct == 0 {
+			c.Sched.ClockPct = 10
+			c.Sched.ClockMs = []int{50, 1000, 11000, 3700000}
+		}
+		return c
+	}
+	register(&Scenario{Prop: "C23", Family: "R", Level: "exploration", Profile: pre, Gen: genEnc, NonTrivialProbe: "enc_reopen_verified",
+		Run: func(t *testing.T, c *Case, keep bool) Outcome {
+			return executeWith(t, c, pre, keep, func(r *Run) { r.extra = encryptionChecks }, func(t *testing.T, r *Run) {
+				if r.viol != nil || r.harness != "" {
+					return
+				}
+				defer func() {
+					// a refused Open leaves cache goroutines behind: the bubble then ends with a
+					// "blocked goroutines remain" panic, which says nothing about the checks
+					if p := recover(); p != nil && !strings.Contains(fmt.Sprint(p), "blocked goroutines remain") && r.viol == nil {
+						r.harness = fmt.Sprintf("panic around encryption bubble: %v", p)
+					}
+				}()
+				synctest.Test(t, func(t *testing.T) { encryptionPost(r) })
+			})
+		},
+		Rule: "histories as in the re-open scenario (pre-fill, flushes, in 2/3 of the cases real compactors, values on both sides of the value threshold) with a 16/24/32-byte master key, data-key rotation every 1 s / 30 s / 1 h / 10 days under simulated clock jumps, compression on/off; during the run every read goes through the C01 oracle (= what the unencrypted database returns) and every (data key id, IV) pair reported by the table builder and the log writer must be new; before the final Close: full dump, Close, every file in Dir/ValueDir is scanned for every user key of >=8 bytes and for the id marker of every written value (none may occur), Open with another key of the same length must fail with ErrEncryptionKeyMismatch and leave every file hash unchanged, then (half of the cases) the master key is rotated with OpenKeyRegistry+WriteKeyRegistry as `badger rotate` does, the old key must now be refused, and the re-opened database must show the same visible state and versions as before and equal the model. non-trivial = run whose re-open was verified",
+		Real: []string{"key_registry.go, y/encrypt.go, table builder/reader encryption, logFile encryption, Open/Close (real code)"}, Stubs: stubsCommon,
 	})
 	// C26 StreamWriter
 	p26 := profT("W-C26")
